@@ -4,7 +4,12 @@ pub struct Rng(pub u64);
 
 impl Rng {
     pub fn new(seed: u64) -> Self {
-        Rng(seed.wrapping_mul(0x9E3779B97F4A7C15).wrapping_add(0x1234_5678_9abc_def1))
+        // mix the seed first: the state advances by a constant, so an affine seeding would make
+        // the streams of consecutive seeds overlap (shifted by one draw)
+        let mut z = seed.wrapping_add(0x1234_5678_9abc_def1);
+        z = (z ^ (z >> 33)).wrapping_mul(0xFF51AFD7ED558CCD);
+        z = (z ^ (z >> 33)).wrapping_mul(0xC4CEB9FE1A85EC53);
+        Rng(z ^ (z >> 33))
     }
     pub fn next(&mut self) -> u64 {
         self.0 = self.0.wrapping_add(0x9E3779B97F4A7C15);
